@@ -421,7 +421,8 @@ Section Gaps.
     (forall t, In t r <-> In t N /\ exists v, In v vs1 /\ sel t v) /\
     (forall x, mem x i <-> (exists t, In t r /\ inr x t) \/ exists v, In v vs1 /\ gapx x v) /\
     max0 (maxv b) <= max0 mx /\ (forall v, In v vs1 -> snd v <= max0 mx) /\
-    (mx = None -> maxv b = None /\ vs1 = []).
+    (mx = None -> maxv b = None /\ vs1 = []) /\
+    (forall z, max0 (maxv b) <= z -> (forall v, In v vs1 -> snd v <= z) -> max0 mx <= z).
 
   Lemma N_ok t : In t N -> fst t <= snd t.
   Proof. apply canonical_In_ok. exact HcN. Qed.
@@ -429,7 +430,7 @@ Section Gaps.
   Lemma gaps_step_inv vs1 st v :
     1 <= fst v <= snd v -> GInv vs1 st -> GInv (vs1 ++ [v]) (gaps_step b st v).
   Proof.
-    destruct st as [mx [i r]]. destruct v as [s e]. cbn [fst snd]. intros [Hs1 Hse] (Hci & Hnd & Hr & Hi & Hm1 & Hm2 & Hm3).
+    destruct st as [mx [i r]]. destruct v as [s e]. cbn [fst snd]. intros [Hs1 Hse] (Hci & Hnd & Hr & Hi & Hm1 & Hm2 & Hm3 & Hm4).
     unfold gaps_step.
     fold N. fold M.
     set (a0 := (i, r)).
@@ -475,6 +476,12 @@ Section Gaps.
       - destruct mx; cbn [omax max0 snd]; lia. }
     assert (Hm3' : omax mx e = None -> maxv b = None /\ vs1 ++ [(s, e)] = [])
       by (destruct mx; discriminate).
+    assert (Hm4' : forall z, max0 (maxv b) <= z -> (forall v, In v (vs1 ++ [(s, e)]) -> snd v <= z) ->
+                             max0 (omax mx e) <= z).
+    { intros z Hz Hall.
+      assert (max0 mx <= z) by (apply Hm4; [exact Hz|intros v Hv; apply Hall, in_app_iff; left; exact Hv]).
+      assert (e <= z) by (apply (Hall (s, e)), in_app_iff; right; left; reflexivity).
+      destruct mx; cbn [omax max0] in *; lia. }
     destruct (M + 1 <? s) eqn:Eg.
     - (* a gap range [M+1, s] is added *)
       zb.
@@ -482,7 +489,7 @@ Section Gaps.
       destruct (add_ranges_spec (overlapping (M + 1) s N) a3' (Hov (M + 1) s)) as (A4 & B4 & C4 & D4).
       set (a4 := add_ranges (overlapping (M + 1) s N) a3') in *.
       destruct a4 as [i4 r4] eqn:Ea4. cbn [fst snd] in A4, B4, C4, D4.
-      unfold GInv. split; [|split; [|split; [intros t; split; [intros Ht0; split; revert Ht0|]|split; [intros x; split|split; [|split; [|intros H; split]]]]]].
+      unfold GInv. split; [|split; [|split; [intros t; split; [intros Ht0; split; revert Ht0|]|split; [intros x; split|split; [|split; [|split; [intros H; split|]]]]]]].
       + apply D4. unfold a3'. cbn [fst]. apply ins_canonical; [lia|]. apply D3, D2, D1. exact Hci.
       + apply C4. unfold a3'. cbn [snd]. apply C3, C2, C1. exact Hnd.
       + (* r4 -> *)
@@ -544,10 +551,11 @@ Section Gaps.
       + exact Hm2'.
       + apply (proj1 (Hm3' H)).
       + apply (proj2 (Hm3' H)).
+      + exact Hm4'.
     - (* no gap range *)
       zb.
       destruct a3 as [i3 r3] eqn:Ea3. cbn [fst snd] in A3, B3, C3, D3.
-      unfold GInv. split; [|split; [|split; [intros t; split; [intros Ht0; split; revert Ht0|]|split; [intros x; split|split; [|split; [|intros H; split]]]]]].
+      unfold GInv. split; [|split; [|split; [intros t; split; [intros Ht0; split; revert Ht0|]|split; [intros x; split|split; [|split; [|split; [intros H; split|]]]]]]].
       + apply D3, D2, D1. exact Hci.
       + apply C3, C2, C1. exact Hnd.
       + intros Ht.
@@ -593,6 +601,7 @@ Section Gaps.
       + exact Hm2'.
       + apply (proj1 (Hm3' H)).
       + apply (proj2 (Hm3' H)).
+      + exact Hm4'.
   Qed.
 
   Lemma gaps_fold_inv : forall vs vs0 st,
@@ -612,7 +621,8 @@ Section Gaps.
     split; [apply canonical_nil|]. split; [constructor|].
     split; [intros t; split; [intros []|intros (_ & v & [] & _)]|].
     split; [intros x; split; [intros []|intros [(t & [] & _)|(v & [] & _)]]|].
-    split; [lia|]. split; [intros v []|]. intros H. split; [exact H|reflexivity].
+    split; [lia|]. split; [intros v []|]. split; [intros H; split; [exact H|reflexivity]|].
+    intros z Hz _. exact Hz.
   Qed.
 End Gaps.
 
@@ -659,7 +669,8 @@ Theorem insert_db_ok b rs vs : Inv b rs -> wf_vs vs ->
                (mem x (needed b) \/ exists v, In v vs /\ gapx b x v) /\ ~ mem x vs) /\
     max0 (maxv b) <= max0 (maxv b') /\
     (forall v, In v vs -> snd v <= max0 (maxv b')) /\
-    (forall v p, aget v (partials b') = Some p -> aget v (partials b) = Some p).
+    (forall v p, aget v (partials b') = Some p -> aget v (partials b) = Some p) /\
+    (forall z, max0 (maxv b) <= z -> (forall v, In v vs -> snd v <= z) -> max0 (maxv b') <= z).
 Proof.
   intros [HcN Hrows HM Hrange Hpart Hkeys] Hwf.
   pose proof (wf_vs_ranges vs Hwf) as Hvs. destruct Hwf as [Hcvs Hvs1].
@@ -667,7 +678,7 @@ Proof.
   pose proof (gaps_fold_inv b HcN vs [] (maxv b, ([], [])) Hvs (GInv_init b)) as HG.
   cbn [app] in HG.
   destruct (fold_left (gaps_step b) vs (maxv b, ([], []))) as [mx [i r]].
-  destruct HG as (Hci & Hnd & Hr & Hi & Hm1 & Hm2 & Hm3).
+  destruct HG as (Hci & Hnd & Hr & Hi & Hm1 & Hm2 & Hm3 & Hm4).
   set (N := needed b) in *. set (M := max0 (maxv b)) in *.
   destruct HcN as [lo HcN'].
   assert (HcNc : canonical N) by (exists lo; exact HcN').
@@ -765,7 +776,7 @@ Proof.
     - pose proof (Hm2 v Hv). rewrite Forall_forall in Hvs. specialize (Hvs v Hv).
       unfold gapx in Hg. fold M in Hg.
       assert (x <> fst v) by (intros ->; apply Hnv; eapply In_mem; [exact Hv|lia]). lia. }
-  split; [|split; [exact Hspec|split; [exact Hm1|split; [exact Hm2|exact Hp1]]]].
+  split; [|split; [exact Hspec|split; [exact Hm1|split; [exact Hm2|split; [exact Hp1|exact Hm4]]]]].
   - constructor; cbn [needed partials maxv].
     + unfold n2. apply ins_all_canonical; [exact HokI|exists lo; exact Hcn1].
     + reflexivity.
